@@ -29,7 +29,10 @@ GB = "Model: 'b' n=INT;"
 FILES = {
     "okA": ("f_ok.c30a", "a x ref x"), "synA": ("f_syn.c30a", "a x ref"), "semA": ("f_sem.c30a", "a x ref nosuch"),
     "okB": ("g_ok.c30b", "b 7"), "synB": ("g_syn.c30b", "b seven"),
+    # a third language with imports: a file importing a file that does not exist; a file that is not valid UTF-8
+    "okC": ("h_ok.c30c", 'import "h_lib.c30c" c x'), "missC": ("h_miss.c30c", 'import "nolib.c30c" c x'), "encC": ("h_enc.c30c", b"c caf\xe9"),
 }
+GC = "Model: imports*=Import 'c' name=/\\S+/; Import: 'import' importURI=STRING;"
 NAMES = ["x", "my-arg", "a-b-c"]
 RECEIVED = []
 
@@ -44,6 +47,13 @@ def setup(d):
     mma, mmb = metamodel_from_str(GA), metamodel_from_str(GB)
     textx.register_language("c30a", pattern="*.c30a", metamodel=mma)
     textx.register_language("c30b", pattern="*.c30b", metamodel=mmb)
+    from textx.scoping.providers import PlainNameImportURI
+
+    mmc = metamodel_from_str(GC)
+    mmc.register_scope_providers({"*.*": PlainNameImportURI()})
+    textx.register_language("c30c", pattern="*.c30c", metamodel=mmc)
+    with open(os.path.join(d, "h_lib.c30c"), "w") as f:
+        f.write("c lib")
 
     def rec(metamodel, model, output_path, overwrite, debug, **custom):
         RECEIVED.append(dict(custom))
@@ -64,7 +74,7 @@ def setup(d):
     decls["any-none"] = decls["any-none@b"] = None
     decls["any-x-mandatory"] = decls["any-x-mandatory@b"] = [GeneratorParam("x", "", mandatory=True)]
     for key, (fn, text) in FILES.items():
-        with open(os.path.join(d, fn), "w") as f:
+        with open(os.path.join(d, fn), "wb" if isinstance(text, bytes) else "w") as f:
             f.write(text)
     with open(os.path.join(d, "ga.tx"), "w") as f:
         f.write(GA)
@@ -117,9 +127,15 @@ def run_check(d, seq, mode):
     for k in seq:
         lang = k[-1]
         parsed_with = lang if mode == "deduce" else "A"
+        if k.startswith("enc"):
+            bad_first = (k, "io")  # not valid UTF-8: unreadable whatever the language
+            break
         if parsed_with != lang:
             # an A-metamodel parsing a B file (or vice versa) gives a syntax error in that file
             bad_first = (k, "syntax")
+            break
+        if k.startswith("miss"):
+            bad_first = (k, "io")  # imports a file that cannot be read: an error message, exit status 1
             break
         if k.startswith("syn"):
             bad_first = (k, "syntax")
@@ -132,7 +148,11 @@ def run_check(d, seq, mode):
     ok = res.exit_code == exp_code
     if ok and bad_first:
         fn = FILES[bad_first[0]][0]
-        if fn not in out or "ERROR" not in out:
+        if bad_first[1] == "io":
+            if "ERROR" not in out:
+                ok = False
+                obs["problem"] = "no error message"
+        elif fn not in out or "ERROR" not in out:
             ok = False
             obs["problem"] = "error message does not name the failing file"
     if ok and not bad_first:
@@ -154,6 +174,9 @@ def run_generate(d, shapes, position, decl_name, decls):
         if sh == "valued":
             custom += ["--" + n, "v_" + n]
             given[n.replace("-", "_")] = "v_" + n
+        elif sh == "equals":
+            custom += ["--%s=v-%s" % (n, n)]  # the usual --name=value spelling; dashes in the VALUE are kept
+            given[n.replace("-", "_")] = "v-" + n
         elif sh == "bare":
             custom += ["--" + n]
             given[n.replace("-", "_")] = True
@@ -165,7 +188,10 @@ def run_generate(d, shapes, position, decl_name, decls):
         i = 0
         ordered = []
         while i < len(custom):
-            if i + 1 < len(custom) and not custom[i + 1].startswith("--"):
+            if "=" in custom[i]:
+                ordered.append(custom[i])
+                i += 1
+            elif i + 1 < len(custom) and not custom[i + 1].startswith("--"):
                 ordered += custom[i:i + 2]
                 i += 2
             else:
@@ -228,7 +254,7 @@ def run(ctx):
                 continue
             for mode in ("deduce", "language", "grammar"):
                 cases.append(("check", seq, mode))
-    for shapes in itertools.product(("absent", "valued", "bare"), repeat=3):
+    for shapes in itertools.product(("absent", "valued", "bare", "equals"), repeat=3):
         for pos in ("after", "before"):
             for decl in ("none", "empty-list", "all-optional", "x-mandatory", "myarg-mandatory-others-optional", "only-abc-optional", "x-and-abc-mandatory",
                          "any-none", "any-none@b", "any-x-mandatory", "any-x-mandatory@b"):
@@ -236,7 +262,7 @@ def run(ctx):
     ctx.pmap(work, [cases[i:i + 40] for i in range(0, len(cases), 40)])
     return {
         "rule": "check: every sequence of 1-3 files over %s x {language deduced per file, --language c30a, --grammar}; generate: every assignment of "
-                "{absent, valued, bare flag} to the custom arguments %s x {before, after the model file} x 6 generator declarations of the language plus 2 declarations registered for 'any' language "
+                "{absent, valued, bare flag, --name=value} to the custom arguments %s x {before, after the model file} x 6 generator declarations of the language plus 2 declarations registered for 'any' language "
                 "(used from a language that has generators for other targets and from one that has none); every case is distinct" % (keys, NAMES),
         "exhaustive": True, "cases": len(cases),
     }, ["a bare flag placed directly before the model file is ambiguous by construction of the CLI and is not generated"]
